@@ -29,12 +29,18 @@ func vpC19Search(n int) {
 	pool := []int64{1, 2, 9, 10, 15, 100}
 	vals := make([]int64, n)
 	heights := make([]int64, n)
+	keys := make([]string, n)
 	for i := 0; i < n; i++ {
+		keys[i] = "number"
+		if i == n-1 {
+			// the last transaction may carry its value under a key of which "number" is a strict prefix
+			keys[i] = []string{"number", "number_id"}[vp.Choice("attr-key", 2)]
+		}
 		vals[i] = pool[vp.Choice("value", len(pool))]
 		heights[i] = int64(1 + i/2)
 		tx := types.Tx{byte(0xA0 + i), byte(vals[i])}
 		res := &abci.TxResult{Height: heights[i], Index: uint32(i % 2), Tx: tx, Result: abci.ResponseDeliverTx{
-			Events: []abci.Event{{Type: "account", Attributes: []abci.EventAttribute{{Key: []byte("number"), Value: []byte(fmt.Sprint(vals[i])), Index: true}}}},
+			Events: []abci.Event{{Type: "account", Attributes: []abci.EventAttribute{{Key: []byte(keys[i]), Value: []byte(fmt.Sprint(vals[i])), Index: true}}}},
 		}}
 		if err := txi.Index(res); err != nil {
 			panic(err)
@@ -44,7 +50,10 @@ func vpC19Search(n int) {
 	lo, hi := bounds[vp.Choice("lower", len(bounds))], bounds[vp.Choice("upper", len(bounds))]
 	var qs string
 	match := func(v, h int64) bool { return false }
-	switch vp.Choice("query-shape", 5) {
+	switch vp.Choice("query-shape", 6) {
+	case 5:
+		qs = "account.number EXISTS"
+		match = func(v, h int64) bool { return true }
 	case 0:
 		qs = fmt.Sprintf("account.number >= %d AND account.number <= %d", lo, hi)
 		match = func(v, h int64) bool { return v >= lo && v <= hi }
@@ -69,7 +78,7 @@ func vpC19Search(n int) {
 	vp.Assert(err == nil, "C19.search.well-formed-query-is-answered")
 	want := 0
 	for i := range vals {
-		if match(vals[i], heights[i]) {
+		if keys[i] == "number" && match(vals[i], heights[i]) {
 			want++
 			found := 0
 			for _, r := range got {
